@@ -334,6 +334,28 @@ func valFromJSON(j any) val {
 		}
 		return vMap(kvs...)
 	}
+	if ty, ok := m["ar"].(string); ok {
+		xs, _ := m["xs"].([]any)
+		vs := make([]val, len(xs))
+		for i, x := range xs {
+			vs[i] = valFromJSON(x)
+		}
+		switch {
+		case ty == "[3]int" && len(vs) == 3:
+			a, _ := vs[0].g.(int)
+			b, _ := vs[1].g.(int)
+			c, _ := vs[2].g.(int)
+			return vIntArray3(a, b, c)
+		case ty == "[2]string" && len(vs) == 2:
+			a, _ := vs[0].g.(string)
+			b, _ := vs[1].g.(string)
+			return vStrArray2(a, b)
+		}
+		panic("valFromJSON: unsupported array type " + ty)
+	}
+	if _, ok := m["st"].(string); ok {
+		panic("valFromJSON: struct values cannot be rebuilt from JSON; use native builders")
+	}
 	return vNil()
 }
 
